@@ -242,7 +242,8 @@ class C16:
     rule = ('random cases of four kinds. rt (~70%): a table of 0..6 (thorough 0..12) rows x 1..4 columns (Mixed/Float/Int '
             'columns, identifier-like distinct names incl. non-ASCII ones; cells: ints around 0, 2^31, +-2^53(+-1), 2^62; '
             'floats incl. -0.0, nan, +-inf, subnormal, 1e22/1e23, integral and non-integral, random ones; strings with the '
-            'delimiter, the quote character, LF, tab, spaces, non-ASCII, "None", ""; None), optionally row-reordered by '
+            'delimiter, the quote character, LF, tab, spaces, non-ASCII, VT/FF/FS/GS/RS/NEL/U+2028/U+2029 (str.splitlines '
+            'separators that are not line ends for csv), "None", ""; None), optionally row-reordered by '
             'dm[list] and with sorted=False, 5 delimiter/quote pairs; the table is observed through dm[name][i] after '
             'assignment, written with io.writetxt, the file bytes are kept, read back with io.readtxt and observed again '
             '(dm[name][i] and row iteration must agree and be plain int/float/str/None). file (~20%): a file rendered by '
